@@ -149,7 +149,11 @@ def execute(plan: dict) -> Result:
             nonlocal faults, accepted
             faults += 1
             try:
-                out = decrypt_packet(EncryptedPacket(ct, sig), aes, key, verify=True, **kw)
+                # verification is the documented default of decrypt_packet: every other attack relies on the default
+                if faults % 2:
+                    out = decrypt_packet(EncryptedPacket(ct, sig), aes, key, **kw)
+                else:
+                    out = decrypt_packet(EncryptedPacket(ct, sig), aes, key, verify=True, **kw)
                 if accepted is None:
                     accepted = (what, out)
             except ValueError:
